@@ -586,7 +586,8 @@ func (p *Parser) parseSelectResults() []ast.SelectItem {
 			break
 		}
 		p.nextToken()
-		if p.Token.Kind == token.TokenEOF || p.Token.Kind == "FROM" {
+		// A trailing comma ends the select list wherever the query itself can end.
+		if p.Token.Kind == token.TokenEOF || p.Token.Kind == "FROM" || p.Token.Kind == ";" || p.Token.Kind == ")" {
 			break
 		}
 		results = append(results, p.parseSelectItem())
